@@ -8,7 +8,7 @@ from pathlib import Path
 import histgen
 import vlib
 from vlib import Check
-from checks.exporter_common import rng_for
+from checks.exporter_common import rng_for, run_interleaved
 
 
 def threads_model(chk, n, plen, bug, expect):
@@ -172,6 +172,14 @@ def run_readers(chk, tier, flavor, nthreads, label):
     r = subprocess.run(["timeout", "900", str(exe), "read", str(lst), str(nthreads), "2" if tier == "quick" else "4", str(prefix)],
                        capture_output=True, text=True, env=env)
     events = []
+    if flavor == "plain":
+        # two readers operated alternately on ONE thread (one read_block() each in turn): shared state needs no second thread
+        il, crashes2 = reader_dumps(work, paths + paths[1:] + paths[:1], flavor="asan", mode="dump2", label="c20i2")
+        for name, ev in il.items():
+            if name in seq:
+                events.append({"e": "S", "file": name, "thread": -2, "rd_seq": seq[name]["rd"], "rd_thr": ev["rd"]})
+        for c in crashes2:
+            events.append({"e": "S", "file": "-", "thread": -2, "rd_seq": {"fin": "eof"}, "rd_thr": {"fin": "crash " + json.dumps(c)[:300]}})
     if r.returncode != 0:
         what = "ThreadSanitizer: data race" if "ThreadSanitizer" in r.stderr else f"abnormal exit {r.returncode}"
         loc = " ".join(l.strip()[:140] for l in r.stderr.splitlines() if "#0" in l or "Location" in l or "SUMMARY" in l)[:600]
@@ -203,7 +211,8 @@ def run(tier):
                 "outputs, run concurrently with injected yields; every per-thread trace is validated by TLC with the very "
                 "same TraceExporter spec as sequential runs (any deviation from the sequential semantics is a violation); "
                 "every closed output of the concurrent run is byte-identical to that of the same programs executed one "
-                "after another on one thread (digests compared by TLC), incl. blocks with 3..700 distinct address events; "
+                "after another on one thread (digests compared by TLC), incl. blocks with 3..700 distinct address events; pairs of "
+                "exporters and pairs of readers operated alternately on ONE thread behave as if alone; "
                 "the same driver under ThreadSanitizer: a race report truncates the traces; distinct = per-thread executions")
     chk.assumptions = ["TLC + CommunityModules", "ThreadSanitizer happens-before analysis as the instrument for races",
                        "schedules are those the OS produced (sampled), not enumerated"]
@@ -224,6 +233,9 @@ def run(tier):
     for nt in ([4] if tier == "quick" else [2, 4, 16]):
         m = run_bytes(chk, nt, 2, hb, f"c20b{nt}")
         execs += m["execs"]
+    # no second thread is needed to see shared state: two exporters operated alternately on one thread
+    m = run_interleaved(chk, hs[: (40 if tier == "quick" else 400)], None, label="c20i")
+    execs += m["execs"]
     m = run_readers(chk, tier, "plain", 8 if tier == "quick" else 16, "c20rp")
     execs += m["execs"]
     m = run_readers(chk, tier, "tsan", 6 if tier == "quick" else 12, "c20rt")
